@@ -23,7 +23,7 @@
 (* free variable, so a grid with >= 3 values per variable decides it for the    *)
 (* whole field; the configurations use all of Z_Q where the product stays small *)
 (* and 2-3 point grids elsewhere (stated per configuration).                    *)
-EXTENDS MSPQ
+EXTENDS MSPQ, TLC
 
 CONSTANTS Scheme,      \* "dkls23" | "lindell17" | "bls" | "schnorr"
           MSPs,        \* set of [M, lab]
@@ -49,14 +49,23 @@ XOf(k) == XTab[k]
 \* ---------------------------------------------------------------- keys and quorums
 SpansByRank(M, lab, S) == LET rs == RowsOfSet(lab, S) IN Len(rs) > 0 /\ SolvableLeft(SubRows(M, rs), E0(NCols(M)))
 Cols(n, first) == {c \in [1..n -> F] : c[1] = first /\ \A k \in 2..n : c[k] \in ColS}
-\* reconstruction coefficients over S (any solution: the results below must not depend on which)
-CoeffsFor(M, lab, S) ==
+\* reconstruction coefficients over S: a combination of at most NCols of the rows owned by S that gives e0 (any solution will
+\* do: the results below must not depend on which one; the library also returns one particular solution)
+Min(a, b) == IF a < b THEN a ELSE b
+Solutions(M, lab, S) ==
   LET rs == RowsOfSet(lab, S)
-      c == CHOOSE c \in [1..Len(rs) -> F] : VecMat(c, SubRows(M, rs)) = E0(NCols(M))
-  IN [i \in S |-> LET own == RowsOf(lab, i) IN [k \in 1..Len(own) |-> c[CHOOSE a \in 1..Len(rs) : rs[a] = own[k]]]]
+      w == Min(NCols(M), Len(rs))
+  IN {tc \in IncSeqs(1, Len(rs), w) \X [1..w -> F] :
+        VecMat(tc[2], [k \in 1..w |-> M[rs[tc[1][k]]]]) = E0(NCols(M))}
+CoeffsFrom(lab, S, tc) ==
+  LET rs == RowsOfSet(lab, S)
+      full == [a \in 1..Len(rs) |-> IF \E k \in 1..Len(tc[1]) : tc[1][k] = a THEN tc[2][CHOOSE k \in 1..Len(tc[1]) : tc[1][k] = a] ELSE 0]
+  IN [i \in S |-> LET own == RowsOf(lab, i) IN [k \in 1..Len(own) |-> full[CHOOSE a \in 1..Len(rs) : rs[a] = own[k]]]]
 \* evaluated once per (programme, quorum): TLC caches constant definitions
-QuorumTab == [m \in MSPs |-> [S \in (SUBSET Holders(m.lab)) \ {{}} |->
-                IF SpansByRank(m.M, m.lab, S) THEN [ok |-> TRUE, c |-> CoeffsFor(m.M, m.lab, S)] ELSE [ok |-> FALSE]]]
+\* (TLCEval forces the lazily represented functions into tables)
+QuorumTab == TLCEval([m \in MSPs |-> TLCEval([S \in (SUBSET Holders(m.lab)) \ {{}} |->
+                LET sols == Solutions(m.M, m.lab, S) IN
+                IF sols = {} THEN [ok |-> FALSE] ELSE [ok |-> TRUE, c |-> TLCEval(CoeffsFrom(m.lab, S, CHOOSE tc \in sols : TRUE))]])])
 Accepts(k) == QuorumTab[[M |-> k.M, lab |-> k.lab]][k.S].ok
 Coeffs(k) == QuorumTab[[M |-> k.M, lab |-> k.lab]][k.S].c
 \* pairwise-seed zero share: party i adds the seeds shared with larger ids and subtracts those with smaller ids
@@ -239,7 +248,7 @@ SchnorrOut == (Scheme = "schnorr" /\ st = "signed" /\ ~out.refused) =>
 \* ---------------------------------------------------------------- common
 AdditiveSumsToSecret == st = "conv" => /\ SumOver(add.a, add.S) = add.x
                                        /\ SumOver(add.z, add.S) = 0
-RefusedIffUnqualified == st = "refused" => ~SpansByRank(key.M, key.lab, key.S)
+RefusedIffUnqualified == st = "refused" => ~Accepts(key)
 \* a qualified quorum is never stuck at "dealt" and an unqualified one can only be refused: the configurations check deadlock,
 \* Done being the only step of a finished run
 Done == st \in {"signed", "refused"} /\ UNCHANGED vars
